@@ -92,18 +92,27 @@ def verify_function(eng, key: str) -> FnReport:
             rep.status = "error"
             rep.reason = "contradictory precondition"
             return rep
+        eng.frame_hook = lambda s_, st0=st: check_frame(eng, s_, st0, c, penv, fn)
         outs = eng.run_block(fn.node.body, st)
+        eng.frame_hook = None
         n_paths = 0
         for s, out in outs:
             if eng.is_dead(s):
                 continue
             n_paths += 1
+            if n_paths <= 6:
+                ob = eng.add_obligation(s, f"canary:path{n_paths}", "canary", z3.BoolVal(False), out.node or fn.node,
+                                        "False (must NOT be provable: the path's assumptions are consistent)")
             if out.kind in ("normal", "return"):
                 res = out.value if out.kind == "return" and out.value is not None else VNone()
                 if c.returns is not None:
                     res = eng.coerce(s, res, c.returns)
+                fenv = final_env(s, penv)
+                for pat in c.call_sites:
+                    if pat not in s.ghost.get("call_sites_seen", ()):
+                        pass
                 for nm, text in c.ensures.items():
-                    g = eng.eval_clause(s, text, penv, fn.module, old_state=st.entry, extra={"result": res})
+                    g = eng.eval_clause(s, text, fenv, fn.module, old_state=st.entry, extra={"result": res})
                     eng.add_obligation(s, f"ensures:{nm}", "postcondition", g, out.node or fn.node, text)
                 check_frame(eng, s, st, c, penv, fn)
                 for en, cond in c.raises.items():
@@ -123,10 +132,10 @@ def verify_function(eng, key: str) -> FnReport:
                     cond = c.raises[en]
                     if cond:
                         text = cond[4:] if cond.startswith("iff:") else cond
-                        g = eng.eval_clause(s, text, penv, fn.module, old_state=st.entry)
+                        g = eng.eval_clause(s, text, final_env(s, penv), fn.module, old_state=st.entry)
                         eng.add_obligation(s, f"raises-when:{en}@{line}", "postcondition", g, out.node, text)
                     for nm, text in c.ensures_raise.get(en, {}).items():
-                        g = eng.eval_clause(s, text, penv, fn.module, old_state=st.entry, extra={"exc": out.value})
+                        g = eng.eval_clause(s, text, final_env(s, penv), fn.module, old_state=st.entry, extra={"exc": out.value})
                         eng.add_obligation(s, f"ensures-raise:{en}:{nm}@{line}", "postcondition", g, out.node, text)
                     check_frame(eng, s, st, c, penv, fn)
             else:
@@ -152,6 +161,15 @@ def verify_function(eng, key: str) -> FnReport:
         del eng.obligations[n_before:]
     rep.n_obligations = len(eng.obligations) - n_before
     return rep
+
+
+def final_env(s, penv):
+    """Clauses see the parameters (entry values unless reassigned) and the locals at exit."""
+    env = dict(penv)
+    for k, v in s.env.items():
+        if not k.startswith("$"):
+            env[k] = v
+    return env
 
 
 def check_frame(eng, s: State, st0: State, c, penv, fn):
